@@ -2,7 +2,7 @@ import RbV.Basic.Codec
 import RbV.Model.IndexedFasta
 /-! Driver for property C12: indexed FASTA random access.
 
-`c12 <file hex> <fai hex> cuts:<n,…> sched:<s,…> <op>;<op>;… => <run>|<run>|…`   (see `harness/src/c12.rs`)
+`c12 h <file hex> <fai hex> cuts:<n,…> sched:<s,…> <op>;<op>;… => <run>|<run>|…`   (see `harness/src/c12.rs`)
 
 For every run (= the history executed on a fresh reader over `file.take n`) and every operation the driver decides
 the observation against the **specification**:
@@ -147,16 +147,16 @@ def decideOp (c : Ctx) (st : Option Fetched) (everFetched : Bool) (op : Op) (obs
         match parseObs obs, op.mode with
         | .bad, _ => some "unparsable-observation"
         | .ok b, .r =>
-          if inside then (if b = want then none else some ("wrong-data-expected-" ++ toHex want))
+          if inside then (if b = want then none else some ("wrong-data expected-" ++ toHex want))
           else some "truncated-span-returned-data"
         | .ok b, .i =>
-          if inside then (if b = want then none else some ("wrong-data-expected-" ++ toHex want))
+          if inside then (if b = want then none else some ("wrong-data expected-" ++ toHex want))
           else some "truncated-span-returned-data"
         | .ok b, .p k =>
           if b = want.take k ∧ (inside ∨ k ≤ want.length) then
             (if inside ∨ k = 0 ∨ pos f.idx (f.start + k - 1) < c.file.length then none
              else some "truncated-span-returned-data")
-          else some ("wrong-data-expected-" ++ toHex (want.take k))
+          else some ("wrong-data expected-" ++ toHex (want.take k))
         | .err cls pre, m =>
           if cls = "endless" then some "iterator-does-not-end" else
           if inside then
@@ -184,13 +184,13 @@ def runOps (c : Ctx) (ops : List Op) (obs : List String) : Option String × Bool
     | op :: ops, o :: os =>
       let (rej, d, st', ever', t) := decideOp c st ever op o
       match rej with
-      | some r => (some ("op" ++ toString j ++ "-" ++ r), drift || d, tags)
+      | some r => (some (r ++ " op" ++ toString j), drift || d, tags)
       | none => go st' ever' (j + 1) (drift || d) (t.foldl (fun acc x => if acc.contains x then acc else x :: acc) tags) ops os
   go none false 0 false [] ops obs
 
 def verdict (toks : List String) (out : String) : String :=
   match toks with
-  | [fh, ih, cs, ss, os] =>
+  | ["h", fh, ih, cs, ss, os] =>
     match parseHex fh, parseHex ih, field cs, field ss with
     | some file, some fai, some ("cuts", cl), some ("sched", sl) =>
       match parseNatList cl, parseNatList sl, parseFai fai, (os.splitOn ";").mapM parseOp with
@@ -224,7 +224,7 @@ def verdict (toks : List String) (out : String) : String :=
               let obs := r.splitOn ";"
               if obs.length ≠ ops.length then "reject run" ++ toString i ++ "-observation-count" else
               match runOps c ops obs with
-              | (some rej, _, _) => "reject run" ++ toString i ++ "-cut" ++ toString n ++ "-" ++ rej
+              | (some rej, _, _) => "reject " ++ rej ++ " run" ++ toString i ++ " cut" ++ toString n
               | (none, d, t) => goRuns (i + 1) (drift || d)
                   (t.foldl (fun acc x => if acc.contains x then acc else x :: acc) tags) ns rs
           goRuns 0 false [] cuts runs
